@@ -213,7 +213,7 @@ def _query(g):
                 outer_bgp_vars = []
         outer_bgp_vars = [v for v in outer_bgp_vars if v != "s"]
     for _ in range(g.randint(0, 3)):
-        k = g.choice(["optional", "optional-filter", "union", "minus", "filter", "bind", "values", "subselect", "group", "bgp2"])
+        k = g.choice(["optional", "optional-filter", "union", "minus", "filter", "bind", "values", "subselect", "group", "group", "bgp2"])
         if k == "optional":
             where.append({"t": "optional", "p": [{"t": "bgp", "triples": [[V(g.choice(["s", "o"])), g.pick(PREDS), V("x")]]}]})
         elif k == "optional-filter":
@@ -243,9 +243,10 @@ def _query(g):
                 # pre-binding a variable that a nested MINUS mentions is not the same as joining a VALUES row afterwards (the
                 # nested group does not see the outer binding in the algebra): like a sub-query reusing the variable
                 outer_bgp_vars = [v for v in outer_bgp_vars if v != mv]
-            elif g.chance(0.4):
+            elif g.chance(0.6):
                 # a group whose filter mentions a variable that only the neighbouring pattern binds: inside the group it is unbound
-                fv = g.choice(["s", "o"])
+                # (also when the neighbour binds it to something that is falsy in Python)
+                fv = g.choice(["s", "o", "o"])
                 where.append({"t": "group", "p": [{"t": "bgp", "triples": [[V("gx"), g.pick(PREDS), V("gy")]]}, {"t": "filter", "e": g.choice([["bound", fv], ["!bound", fv], ["!=", V(fv), V("gx")]])}]})
                 outer_bgp_vars = [v for v in outer_bgp_vars if v != fv]
             else:
@@ -369,7 +370,7 @@ def generate(seed, tier):
                 kind_, q2, ren, pfx = g.choice(rw)
                 ops.append({"uid": uid, "k": "rewrite", "q": qi, "kind": kind_, "q2": q2, "ren": ren, "prefix": pfx})
         elif kind == "config":
-            ops.append({"uid": uid, "k": "config", "q": qi, "cfg": g.choice(["simple", "auditable", "aggregate", "dataset"])})
+            ops.append({"uid": uid, "k": "config", "q": qi, "cfg": g.choice(["simple", "auditable", "aggregate", "dataset", "auditable-named", "auditable-empty-sibling"])})
         elif kind == "initns":
             ops.append({"uid": uid, "k": "initns", "q": qi, "order": g.choice([[0, 1], [1, 0], [0, 1, 0]])})
         elif kind == "initb" and q["_outer_vars"]:
@@ -399,7 +400,7 @@ def _rows(res, ren=None):
 def execute(trace, ctx):
     import warnings
 
-    from rdflib import Dataset, Graph, Variable
+    from rdflib import Dataset, Graph, URIRef, Variable
     from rdflib.graph import ReadOnlyGraphAggregate
     from rdflib.plugins.sparql.processor import prepareQuery
     from rdflib.plugins.stores.auditable import AuditableStore
@@ -432,6 +433,12 @@ def execute(trace, ctx):
     ds = Dataset()
     load(ds.default_graph, triples)
     graphs["dataset"] = ds
+    # behind the auditable wrapper with several graphs in the store: the data in one named graph, an empty sibling next to it
+    aud_multi = AuditableStore(Memory())
+    load(Graph(aud_multi, URIRef(EX + "datagraph")), triples)
+    graphs["auditable-named"] = Graph(aud_multi, URIRef(EX + "datagraph"))
+    graphs["auditable-empty-sibling"] = Graph(aud_multi, URIRef(EX + "emptygraph"))
+    graphs["memory-empty"] = Graph(Memory())
 
     texts = [text_of(q) for q in cfg["queries"]]
     prepared = {}
@@ -546,7 +553,8 @@ def execute(trace, ctx):
             ctx.log("rewrite", f"{op['kind']} {len(base)}")
         elif k == "config":
             try:
-                base = fresh(op["q"], "memory")
+                # (the empty sibling graph must answer like an empty graph, whatever its neighbours hold)
+                base = fresh(op["q"], "memory" if op["cfg"] != "auditable-empty-sibling" else "memory-empty")
             except Exception as e:
                 ctx.log("config-base-raised", type(e).__name__)
                 continue
